@@ -34,6 +34,15 @@ def _strings(t, rng, tier, valid):
         out.append(s + b"\x00" * 5)
     return out
 
+def carrier(b: bytes, n: int):
+    """The same bytes in a buffer whose items are not bytes (a memoryview cast to 16- / 32-bit items, an array of such items)."""
+    import array
+    if len(b) and len(b) % 4 == 0 and n % 2 == 0:
+        return memoryview(b).cast("I") if n % 4 == 0 else memoryview(array.array("I", b))
+    if len(b) and len(b) % 2 == 0:
+        return memoryview(b).cast("H")
+    return memoryview(b)
+
 @core.safe
 def type_worker(arg):
     import pydsdl
@@ -72,9 +81,9 @@ def type_worker(arg):
         try:
             # the byte string arrives as bytes, bytearray or memoryview (of bytes, of a bytearray, or a slice of a larger
             # buffer whose other bytes are not part of b)
-            form = nstr % 5
+            form = nstr % 7
             buf = (b if form == 0 else bytearray(b) if form == 1 else memoryview(b) if form == 2 else memoryview(bytearray(b)) if form == 3
-                   else memoryview(b"\xff" + b + b"\xff\xff")[1:1 + len(b)])
+                   else memoryview(b"\xff" + b + b"\xff\xff")[1:1 + len(b)] if form == 4 else carrier(b, form))
             o = pydsdl.deserialize(X, buf, with_delimiter_header=hdr)
             a = wr.from_py(t, o)
             if _has_nan(a):
@@ -201,7 +210,7 @@ def run(ctx):
                 "with at least one non-default component or an error; distinct by (type, bytes)")
     ctx.assumptions = ["TLC's evaluation of the specification", "integer fields of the universe are at most 23 bits wide",
                        "utf8 / byte arrays are sampled by the harness only (total, fixed point)",
-                       "the byte string is handed over as bytes / bytearray / memoryview (incl. a slice of a larger buffer) in turn"]
+                       "the byte string is handed over as bytes / bytearray / memoryview (incl. a slice of a larger buffer, and views / arrays of 16- and 32-bit items) in turn"]
     # (two nesting steps x 16 bits would be ~2 * 10^8 states: thorough checks 8 bits at two steps and 16 bits at one step)
     for cfg_b in (["Wire_bytes2_quick.cfg"] if ctx.tier == "quick" else ["Wire_bytes2_quick.cfg", "Wire_bytes_quick.cfg"]):
         res = tlc.run("Wire", cfg_b, tag="c07spec", timeout=6000)
